@@ -116,6 +116,18 @@ Theorem angular_between : forall xp rows x i np j Pd,
                     (1 - t) * sin (a * to_rad Pd) + t * sin (b * to_rad Pd)) Pd).
 Proof. exact pd_between. Qed.
 
+(* the same along a PERIODIC coordinate: never missing for finite data *)
+Theorem angular_periodic_axis : forall xp rows P x np j Pd, pgrid xp P -> (j < np)%nat ->
+  (forall i, (i < length xp)%nat -> all_some (nth i rows []) = true) ->
+  let ii := enclosing xp x (Some P) in
+  let a := oget (nth (fst ii) rows []) j in
+  let b := oget (nth (snd ii) rows []) j in
+  exists t, 0 <= t < 1 /\
+    nth j (interp_axis1_pd xp rows x (Some P) false np Pd) None
+    = Some (angle_of ((1 - t) * cos (a * to_rad Pd) + t * cos (b * to_rad Pd),
+                      (1 - t) * sin (a * to_rad Pd) + t * sin (b * to_rad Pd)) Pd).
+Proof. exact pd_periodic_axis. Qed.
+
 (* direction variables come back in [0, 360) (any corner list: any number of axes, NaN pattern) *)
 Theorem direction_range_0_360 : forall cs np P j v, 0 < P ->
   nth j (interp_corners_periodic cs np P) None = Some v -> 0 <= v < P.
